@@ -1,6 +1,7 @@
 package harness
 
 import (
+	"sync/atomic"
 	"crypto/tls"
 	"runtime"
 	"fmt"
@@ -289,6 +290,16 @@ type App struct {
 	RejectFromApp  func(c AppCall) quickfix.MessageRejectError
 	RejectFromAdmin func(c AppCall) quickfix.MessageRejectError
 	OnCall         func(c AppCall)
+	// SlowNext makes the next inbound callback (FromAdmin/FromApp) take that long in simulated time: a slow
+	// application. Set by the driver at quiescence; consumed by the callback.
+	SlowNext atomic.Int64
+}
+
+func (a *App) slow() {
+	if d := a.SlowNext.Swap(0); d > 0 {
+		a.env.Stat("fault_slow_callback")
+		time.Sleep(time.Duration(d))
+	}
 }
 
 func (a *App) rec(kind string, m *quickfix.Message) AppCall {
@@ -322,6 +333,21 @@ func (a *App) rec(kind string, m *quickfix.Message) AppCall {
 	return c
 }
 
+// LoggedOn reports whether the last logon/logout notification was a logon.
+func (a *App) LoggedOn() bool {
+	a.mu.Lock()
+	defer a.mu.Unlock()
+	for i := len(a.Calls) - 1; i >= 0; i-- {
+		switch a.Calls[i].Kind {
+		case "OnLogon":
+			return true
+		case "OnLogout":
+			return false
+		}
+	}
+	return false
+}
+
 func (a *App) Snapshot() []AppCall {
 	a.mu.Lock()
 	defer a.mu.Unlock()
@@ -346,6 +372,7 @@ func (a *App) ToApp(m *quickfix.Message, _ quickfix.SessionID) error {
 func (a *App) FromAdmin(m *quickfix.Message, _ quickfix.SessionID) quickfix.MessageRejectError {
 	c := a.rec("FromAdmin", m)
 	simsync.Yield("app:FromAdmin")
+	a.slow()
 	if a.RejectFromAdmin != nil {
 		return a.RejectFromAdmin(c)
 	}
@@ -354,6 +381,7 @@ func (a *App) FromAdmin(m *quickfix.Message, _ quickfix.SessionID) quickfix.Mess
 func (a *App) FromApp(m *quickfix.Message, _ quickfix.SessionID) quickfix.MessageRejectError {
 	c := a.rec("FromApp", m)
 	simsync.Yield("app:FromApp")
+	a.slow()
 	if a.RejectFromApp != nil {
 		return a.RejectFromApp(c)
 	}
